@@ -260,7 +260,9 @@ def _create_edge_control_target_attr(operation, reg_type, reg):
     :return: control_target attribute. Can be 'c', 't' or None
     :rtype: str or nothing
     """
-    if isinstance(operation, ControlledPairOperationBase):
+    if isinstance(
+        operation, (ControlledPairOperationBase, ClassicalControlledPairOperationBase)
+    ):
         if reg_type == operation.control_type and reg == operation.control:
             return "c"
         if reg_type == operation.target_type and reg == operation.target:
